@@ -9,8 +9,9 @@ git apply "$patch"
 git status --short | grep -v _version
 cd /verif
 for c in "$@"; do
-  out=$(./check "$c" --tier quick 2>/dev/null | grep -E "VIOLATION|KNOWN" | head -3)
-  echo "== $c :: $(echo "$out" | head -2 | cut -c1-160 | tr '\n' ' ')"
+  all=$(./check "$c" --tier quick 2>/dev/null)
+  nv=$(echo "$all" | grep -c "^VIOLATION")
+  echo "== $c :: violations=$nv :: $(echo "$all" | grep "^VIOLATION" | head -2 | cut -c1-120 | tr '\n' ' ')"
 done
 cd /repo && git checkout -- . && git status --short | grep -v _version
 cd /verif && for t in registry tables tokens effects; do [ -f tools/translate/gen_$t.py ] && PYTHONPATH=/repo /venv/bin/python tools/translate/gen_$t.py >/dev/null 2>&1; done
